@@ -131,6 +131,28 @@ Example C11_old_trigger_refuted :
 Proof. vm_compute. repeat split; reflexivity. Qed.
 Print Assumptions C11_old_trigger_refuted.
 
+(* known debt is a matter of the key only: the figures an entry records (lines, hash, count) play no
+   part in what stops a fail-fast run, so a recorded file that has grown (or shrunk) since the
+   baseline was written is still known debt; two baselines with the same keys admit the same
+   fail-fast executions *)
+Theorem C11_known_debt_whatever_the_recorded_figures :
+  forall (b b' : baseline) (R R' : list result),
+  keys b = keys b' ->
+  ((forall r : result, ff_trigger (Some b) r = ff_trigger (Some b') r) /\
+   (ff_sub (Some b) R R' -> ff_sub (Some b') R R'))%type.
+Proof. exact known_debt_keys_only. Qed.
+Print Assumptions C11_known_debt_whatever_the_recorded_figures.
+
+(* ./a is recorded with 12 lines and has grown to 15: it still does not stop the sequential run, which
+   goes on to the unrecorded ./b and exits 1 (the seeded change C09-m8 stopped at ./a and exited 0) *)
+Example C11_grown_recorded_file_is_known_debt :
+  let ga15 := mkResult [46;47;97] Content Failed 15 10 [9] in
+  ff_trigger gbl ga15 = false /\ ff_seq gbl [ga15; gb; gc] = [ga15; gb] /\
+  ff_subb gbl [ga15; gb; gc] [ga15] = false /\
+  o_exit (check_step ff_fl [ga15; gb] [] gbl) = 1.
+Proof. vm_compute. repeat split; reflexivity. Qed.
+Print Assumptions C11_grown_recorded_file_is_known_debt.
+
 (* a stale entry of a deleted file under strict ratchet and fail-fast: nothing stops the loop, the
    deleted path counts as evaluated (a directory scan saw it gone: it arrives in [dirs]), exit 1
    with and without fail-fast *)
